@@ -525,8 +525,8 @@ example :
 
 /-! ## 7. inside MULTI / EXEC -/
 
-/-- EXEC runs its queue with `runInner` (`FR.C05.exec_eq_sequential`), which for every command but EXEC and the
-script commands is `runCommand` (`FR.C05.runInner_eq_runCommand`); for a regular command this is `runRegular` on the
+/-- EXEC runs its queue with `runInner` (`FR.C05.exec_eq_sequential`), which for every command but EXEC (script
+commands included) is `runCommand` (`FR.C05.runInner_eq_runCommand`); for a regular command this is `runRegular` on the
 selected database with `ctx.time = db.time`, `ctx.inTx` and `ctx.dbnum` arbitrary — exactly the situation of every
 theorem above.  So all rules hold in every database and inside transactions. -/
 theorem inside_exec (mode : Mode) (c : Nat) (sig : Sig) (raw : List Bytes) (body : Body)
@@ -540,10 +540,9 @@ theorem inside_exec (mode : Mode) (c : Nat) (sig : Sig) (raw : List Bytes) (body
   ⟨r.1, r.2.1, r.2.2, rfl⟩
 
 /-- and outside a transaction the very same function is used -/
-theorem outside_exec (mode : Mode) (c : Nat) (sig : Sig) (raw : List Bytes) (hx : sig.name ≠ "exec")
-    (hs : scriptNames.contains sig.name = false) :
+theorem outside_exec (mode : Mode) (c : Nat) (sig : Sig) (raw : List Bytes) (hx : sig.name ≠ "exec") :
     runInner mode c sig raw = runCommand mode c sig raw false :=
-  FR.C05.runInner_eq_runCommand mode c sig raw hx hs
+  FR.C05.runInner_eq_runCommand mode c sig raw hx
 
 /-- instance: TTL queued in a transaction on connection `c` (any selected database) answers by the rule of §1 -/
 theorem ttl_inside_exec (mode : Mode) (c : Nat) (k : Bytes) (s : Sys) (hps : (s.conn c).pubsub = 0)
